@@ -12,6 +12,7 @@ import os
 import re
 import json
 import random
+import resource
 from vlib.common import *
 
 PROP = "C12"
@@ -31,6 +32,18 @@ SIGNATURES = [
     ("call_extra_rpar", r"RightPar \[SemiColon\] .*out=RightPar"),
     ("config_selected_entity", r"ctx=(\S+ )*kw:configuration \S+ kw:of \S+ Dot \[Identifier\]"),
 ]
+
+
+def big_stack():
+    # the extracted functions are not tail recursive: piece lists of the large library files need a deep stack
+    try:
+        resource.setrlimit(resource.RLIMIT_STACK, (resource.RLIM_INFINITY, resource.RLIM_INFINITY))
+    except Exception:
+        try:
+            soft, hard = resource.getrlimit(resource.RLIMIT_STACK)
+            resource.setrlimit(resource.RLIMIT_STACK, (hard, hard))
+        except Exception:
+            pass
 
 
 def signature_id(verdict):
@@ -312,7 +325,7 @@ def main(tier, replay=None):
         env = env_base()
         env["C12_COQ_TERMS"] = "1"
         with open(model) as fin, open(mout, "w") as fout:
-            p = subprocess.run([mbin, str(LIMIT)], stdin=fin, stdout=fout, env=env)
+            p = subprocess.run([mbin, str(LIMIT)], stdin=fin, stdout=fout, env=env, preexec_fn=big_stack)
         if p.returncode != 0:
             res.violation("extracted model runner failed (rc=%s)" % p.returncode, {"kind": "build"}, no_failing_input=True)
             return
@@ -427,4 +440,9 @@ def main(tier, replay=None):
 UNPROVED = [
     "each formatter arm emits every token id of its node exactly once, in order, with safe separators: observed per file "
     "(trace reconstruction + sep_ok), not proved for all ASTs",
+    "render_lex_roundtrip for real, based and exponent literals and bit-string literals (arms of parse_abstract_literal / "
+    "parse_bit_string): evaluated per file by the extracted relex_same; files whose tokens are all of a supported kind are "
+    "counted under model.all_supported",
+    "supported_kind (explicit well-formedness of a token) is not derived from `the token is a lexer output`: it is evaluated "
+    "on every input token of every explored file (model.unsupported_tokens counts the literals of the kinds above)",
 ]
